@@ -41,6 +41,7 @@ require (
 	github.com/peterebden/go-deferred-regex v1.1.0 // indirect
 	github.com/peterebden/tools v0.0.0-20190805132753-b2a0db951d2a // indirect
 	github.com/pkg/xattr v0.4.12 // indirect
+	github.com/please-build/buildtools v0.0.0-20240111140234-77ffe55926d9 // indirect
 	github.com/please-build/gcfg v1.7.0 // indirect
 	github.com/prometheus/client_golang v1.23.2 // indirect
 	github.com/prometheus/client_model v0.6.2 // indirect
